@@ -971,11 +971,30 @@ fn run_stream(seed: u64) -> Result<u64, Fail> {
         }
         ops += 2;
     }
+    // wait_for_read: "never satisfiable" only once the writer is gone and less than asked for is buffered
+    if r.wait_for_read(1) && r.read_buf().unwrap().0.len() >= 1 {
+        return Err(fail(t, "C09", "wait_for_read-gives-up-only-when-the-writer-is-gone-and-too-little-is-buffered", "wait_for_read(1) gave up although a sample is buffered".into(), seed));
+    }
+    {
+        let have = r.read_buf().unwrap().0.len();
+        if r.wait_for_read(have + 1) {
+            return Err(fail(t, "C09", "wait_for_read-gives-up-only-when-the-writer-is-gone-and-too-little-is-buffered", format!("wait_for_read({}) gave up with {have} samples buffered while the write end is alive", have + 1), seed));
+        }
+    }
     // ReadStream::eof(): never while the write end exists; once it is gone, exactly when everything has been consumed
     if r.eof() {
         return Err(fail(t, "C19+C09", "eof-only-when-the-writer-is-gone-and-nothing-is-readable", format!("eof() with the write end alive ({} of {next} samples consumed)", got), seed));
     }
     drop(w);
+    {
+        let have = r.read_buf().unwrap().0.len();
+        if have > 0 && r.wait_for_read(have) {
+            return Err(fail(t, "C09", "wait_for_read-gives-up-only-when-the-writer-is-gone-and-too-little-is-buffered", format!("writer gone, {have} samples buffered, wait_for_read({have}) gave up: the buffered samples would be abandoned"), seed));
+        }
+        if !r.wait_for_read(have + 1) {
+            return Err(fail(t, "C09", "wait_for_read-gives-up-when-the-writer-is-gone-and-too-little-is-buffered", format!("writer gone, {have} samples buffered, wait_for_read({}) does not give up: shutdown would not propagate", have + 1), seed));
+        }
+    }
     loop {
         let (rb, _tags) = r.read_buf().unwrap();
         let left = rb.len();
@@ -989,6 +1008,25 @@ fn run_stream(seed: u64) -> Result<u64, Fail> {
         let m = rng.pick(&[1, 2, 1000, usize::MAX]).min(left);
         rb.consume(m);
         ops += 1;
+    }
+    {
+        let (w2, r2) = new_stream::<u32>();
+        { let mut wb = w2.write_buf().unwrap(); let k = 1000.min(wb.len()); for i in 0..k { wb.slice()[i] = i as u32; } wb.produce(k, &[]); }
+        let free = w2.free();
+        if w2.wait_for_write(free) {
+            return Err(fail(t, "C09", "wait_for_write-gives-up-only-when-the-reader-is-gone-and-too-little-is-free", format!("wait_for_write({free}) gave up with {free} samples free"), seed));
+        }
+        if w2.wait_for_write(free + 1) {
+            return Err(fail(t, "C09", "wait_for_write-gives-up-only-when-the-reader-is-gone-and-too-little-is-free", format!("wait_for_write({}) gave up while the read end is alive", free + 1), seed));
+        }
+        drop(r2);
+        if w2.wait_for_write(free) {
+            return Err(fail(t, "C09", "wait_for_write-gives-up-only-when-the-reader-is-gone-and-too-little-is-free", format!("reader gone, wait_for_write({free}) gave up with {free} samples free"), seed));
+        }
+        if !w2.wait_for_write(free + 1) {
+            return Err(fail(t, "C09", "wait_for_write-gives-up-when-the-reader-is-gone-and-too-little-is-free", format!("reader gone, {free} samples free, wait_for_write({}) does not give up", free + 1), seed));
+        }
+        ops += 4;
     }
     // packet ("non-copy") streams against a reference queue: pop returns the oldest packet exactly once, push appends,
     // peek_size is the oldest packet's length, eof only when empty and the writer is gone
